@@ -53,6 +53,7 @@ package util
 // CleanUTF8(s): s up to and including its last ASCII byte, followed by the valid remainder of the tail (C09: "cut at a
 // valid UTF-8 boundary"); never longer than s; written in place
 //@ func CleanUTF8(s []byte) []byte
+//@   flag counted
 //@   modifies s[:]
 //@   ensures  ref(result) == ref(s) && off(result) == off(s) && len(result) <= len(s)
 //@   ensures[ascii-kept]  forall i int :: 0 <= i && i < len(s) && old(s[i]) <= 127 ==> i < len(result)
